@@ -247,11 +247,24 @@ def judge_injection(ctx, cssutils, parser, base, damaged, kind, tag, where, rng,
     except Exception as e:
         ctx.violation('injection.exception', case, {'tb': core.short_tb(e)}, features=feats, site=core.raise_site(e))
         return
-    p_base = norm(strip_marked(p_base)) if False else p_base
     d = P.diff(p_dam, p_base)
     ctx.seen(['inj', kind, tag, where])
     if d is not None:
         ctx.violation('injection.containment', case, {'diff': d}, features=feats)
+        return
+    # what the log is asked to show (every message, as an application debugging its sheets would) does not change what is kept
+    try:
+        ctx.count('oracle.injection-verbose-log')
+        with core.LogCapture(cssutils):
+            p_verbose = norm(strip_marked(project_nonempty(parser.parseString(t_dam))))
+        core.canonical_state(cssutils)
+    except Exception as e:
+        core.canonical_state(cssutils)
+        ctx.violation('injection.exception', dict(case, loglevel='DEBUG'), {'tb': core.short_tb(e)}, features=feats, site=core.raise_site(e))
+        return
+    d = P.diff(p_verbose, p_base)
+    if d is not None:
+        ctx.violation('injection.containment', dict(case, loglevel='DEBUG'), {'diff': d, 'what': 'differs only with the log level at DEBUG'}, features=feats)
 
 
 # ---- truncation ------------------------------------------------------------------------------------------
@@ -281,7 +294,12 @@ def render_with_offsets(stmts, rng):
     return text, ends, decl_ends
 
 
+NC_PARSER = [None]
+
+
 def judge_truncation(ctx, cssutils, parser, stmts, rng, all_cuts):
+    if NC_PARSER[0] is None:
+        NC_PARSER[0] = cssutils.CSSParser(parseComments=False)
     text, ends, decl_ends = render_with_offsets(stmts, rng)
     try:
         core.canonical_state(cssutils)
@@ -306,6 +324,18 @@ def judge_truncation(ctx, cssutils, parser, stmts, rng, all_cuts):
             got = norm(P.project(parser.parseString(prefix)))
         except Exception as e:
             ctx.violation('truncation.exception', case, {'tb': core.short_tb(e)}, site=core.raise_site(e))
+            continue
+        # the parser that drops comments sees the same prefix: what it keeps is what the other keeps, minus the comments (also when the cut
+        # falls inside a comment)
+        try:
+            ctx.count('oracle.truncation-nocomments')
+            a = norm(P.project(parser.parseString(prefix), comments=False))
+            b = norm(P.project(NC_PARSER[0].parseString(prefix), comments=False))
+            if a != b:
+                ctx.violation('truncation.nocomments-differs', dict(case, parseComments=False), {'diff': P.diff(b, a)})
+                continue
+        except Exception as e:
+            ctx.violation('truncation.exception', dict(case, parseComments=False), {'tb': core.short_tb(e)}, site=core.raise_site(e))
             continue
         want = full[: nrules[k]]
         if got[: nrules[k]] != want:
